@@ -73,13 +73,20 @@ func checkC11(c *Ctx) {
 
 	// the tag copy: a MakeMap whose updates come from ranging ss.tags
 	var tagsMap *ssa.MakeMap
-	instrsOf(cb, func(in ssa.Instruction) {
+	var mapUpdates []*ssa.MapUpdate
+	instrsOfDeep(cb, func(in ssa.Instruction) {
+		if mu, isMu := in.(*ssa.MapUpdate); isMu {
+			mapUpdates = append(mapUpdates, mu)
+		}
+	})
+	instrsOfDeep(cb, func(in ssa.Instruction) {
 		mk, ok := in.(*ssa.MakeMap)
-		if !ok || mk.Referrers() == nil {
+		if !ok {
 			return
 		}
-		for _, r := range *mk.Referrers() {
-			if mu, isMu := r.(*ssa.MapUpdate); isMu && mu.Map == ssa.Value(mk) {
+		// (a copy that a nested literal captures lives in a cell: canon looks through it)
+		for _, mu := range mapUpdates {
+			if isMu := true; isMu && canon(mu.Map) == ssa.Value(mk) {
 				ks, ki := rangeSource(mu.Key)
 				vs, vi := rangeSource(mu.Value)
 				if ks != nil && ks == vs && ki == 1 && vi == 2 {
@@ -118,7 +125,7 @@ func checkC11(c *Ctx) {
 		}
 		key := c.fnKey(cb) + ":" + k.mapField
 		var obj *ssa.Alloc
-		instrsOf(cb, func(in ssa.Instruction) {
+		instrsOfDeep(cb, func(in ssa.Instruction) {
 			if al, ok := in.(*ssa.Alloc); ok && deref(al.Type()) == types.Type(st) {
 				obj = al
 			}
@@ -185,7 +192,7 @@ func checkC11(c *Ctx) {
 		}
 		// inserted into snap.<kind> under KeyForPrefixedStringMap(name, tags)
 		inserted := false
-		instrsOf(cb, func(in ssa.Instruction) {
+		instrsOfDeep(cb, func(in ssa.Instruction) {
 			mu, ok := in.(*ssa.MapUpdate)
 			if !ok {
 				return
@@ -521,31 +528,56 @@ func (c *Ctx) checkForEachScopeSource(rule string) {
 	n := 0
 	okAll := true
 	seen := map[*ssa.Function]bool{}
-	var visit func(g *ssa.Function, cb ssa.Value, depth int)
-	visit = func(g *ssa.Function, cb ssa.Value, depth int) {
+	// isCB(v): v is the callback in function g - the value itself, a load of the cell it was spilled to
+	// (canon), or, inside a function literal, the free variable bound to it (or a load of that variable)
+	var visit func(g *ssa.Function, isCB func(ssa.Value) bool, depth int)
+	visit = func(g *ssa.Function, isCB func(ssa.Value) bool, depth int) {
 		if g == nil || g.Blocks == nil || seen[g] {
 			return
 		}
 		seen[g] = true
 		instrsOf(g, func(in ssa.Instruction) {
-			ci, isCall := in.(ssa.CallInstruction)
-			if !isCall {
-				// the callback stored or captured: not followed
-				for _, op := range in.Operands(nil) {
-					if op != nil && *op != nil && canon(*op) == cb {
-						if _, isDbg := in.(*ssa.DebugRef); isDbg {
-							continue
-						}
-						if _, isMC := in.(*ssa.MakeClosure); isMC {
-							okAll = false
-							c.bad(rule, key, in.Pos(), "the walk's callback is captured by a closure: which scopes it is called with is not decided", c.describe(in))
+			if mc, isMC := in.(*ssa.MakeClosure); isMC {
+				lit, _ := mc.Fn.(*ssa.Function)
+				for bi, b := range mc.Bindings {
+					bound := isCB(b)
+					if !bound {
+						// captured by reference: the binding is the cell the callback was stored to
+						if al, isAl := b.(*ssa.Alloc); isAl && al.Referrers() != nil {
+							for _, u := range *al.Referrers() {
+								if st, isSt := u.(*ssa.Store); isSt && st.Addr == ssa.Value(al) && isCB(st.Val) {
+									bound = true
+								}
+							}
 						}
 					}
+					if !bound || lit == nil || bi >= len(lit.FreeVars) {
+						continue
+					}
+					fv := lit.FreeVars[bi]
+					if depth >= 3 {
+						okAll = false
+						c.bad(rule, key, in.Pos(), "the walk's callback is captured too deeply to be followed", c.describe(in))
+						continue
+					}
+					visit(lit, func(v ssa.Value) bool {
+						if v == ssa.Value(fv) {
+							return true
+						}
+						if ld, isLd := v.(*ssa.UnOp); isLd && ld.Op == token.MUL && ld.X == ssa.Value(fv) {
+							return true
+						}
+						return false
+					}, depth+1)
 				}
 				return
 			}
+			ci, isCall := in.(ssa.CallInstruction)
+			if !isCall {
+				return
+			}
 			com := ci.Common()
-			if !com.IsInvoke() && canon(com.Value) == cb {
+			if !com.IsInvoke() && isCB(com.Value) {
 				n++
 				// argument: value of a range over a loaded scopeBucket.s
 				arg := canon(com.Args[0])
@@ -567,26 +599,22 @@ func (c *Ctx) checkForEachScopeSource(rule string) {
 			}
 			// handed on to a helper: follow it
 			for i, a := range com.Args {
-				if canon(a) != cb {
+				if !isCB(a) {
 					continue
 				}
 				h := staticCallee(ci)
-				if h == nil || !c.inModule(h) || depth >= 2 {
+				if h == nil || !c.inModule(h) || depth >= 3 || i >= len(h.Params) {
 					okAll = false
 					c.bad(rule, key, in.Pos(), "the walk hands its callback to code that is not followed", c.describe(in))
 					continue
 				}
-				idx := i
-				if h.Signature.Recv() != nil && !com.IsInvoke() {
-					// Args include the receiver for static method calls; Params too
-				}
-				if idx < len(h.Params) {
-					visit(h, ssa.Value(h.Params[idx]), depth+1)
-				}
+				hp := ssa.Value(h.Params[i])
+				visit(h, func(v ssa.Value) bool { return canon(v) == hp }, depth+1)
 			}
 		})
 	}
-	visit(fn, ssa.Value(fn.Params[1]), 0)
+	cb0 := ssa.Value(fn.Params[1])
+	visit(fn, func(v ssa.Value) bool { return canon(v) == cb0 }, 0)
 	if n == 0 {
 		okAll = false
 		c.bad(rule, key, fn.Pos(), "ForEachScope never calls its callback")
